@@ -10,28 +10,19 @@ open Sugar
 def Listed (conn : Nat) (t : Table) (n : Bytes) : Prop := ∃ c ∈ t, c.name = n ∧ conn ∈ c.subs
 
 theorem subscribeLoop_confirms (conn : Nat) (wp : Bool) (names : List Bytes) :
-    ∀ (i : Nat) (t : Table) (ps : List Push), (subscribeLoop conn wp names i t ps).2.2 = false →
-      (subscribeLoop conn wp names i t ps).2.1 =
+    ∀ (i : Nat) (t : Table) (ps : List Push),
+      (subscribeLoop conn wp names i t ps).2 =
         ps ++ (names.zipIdx i).map fun x => Push.confirm conn (action wp false) x.1 (x.2 + 1) := by
   induction names with
-  | nil => intro i t ps _; simp [subscribeLoop]
+  | nil => intro i t ps; simp [subscribeLoop]
   | cons n r ih =>
-    intro i t ps h
-    unfold subscribeLoop at h ⊢
+    intro i t ps
+    unfold subscribeLoop
     split
-    · rename_i hn
-      simp only [hn, if_true] at h
-      rw [ih _ _ _ h]
+    · rw [ih]
       simp [List.zipIdx_cons]
-    · rename_i hn
-      simp only [hn] at h
-      split
-      · rename_i hp
-        simp [hp] at h
-      · rename_i hp
-        simp only [hp] at h
-        rw [ih _ _ _ h]
-        simp [List.zipIdx_cons]
+    · rw [ih]
+      simp [List.zipIdx_cons]
 
 theorem subFirst_listed_self (conn : Nat) (n : Bytes) (t : Table) (h : hasName t n = true) : Listed conn (subFirst conn n t) n := by
   induction t with
@@ -76,39 +67,58 @@ theorem subscribeLoop_mono (conn s : Nat) (wp : Bool) (m : Bytes) (names : List 
     unfold subscribeLoop
     split
     · exact ih _ _ _ (subFirst_mono conn s n m t h)
-    · split
-      · exact h
-      · apply ih
-        obtain ⟨x, hx, hxn, hxs⟩ := h
-        exact ⟨x, by simp [hx], hxn, hxs⟩
+    · apply ih
+      obtain ⟨x, hx, hxn, hxs⟩ := h
+      exact ⟨x, by simp [hx], hxn, hxs⟩
 
 theorem subscribeLoop_listed (conn : Nat) (wp : Bool) (names : List Bytes) :
-    ∀ (i : Nat) (t : Table) (ps : List Push), (subscribeLoop conn wp names i t ps).2.2 = false →
+    ∀ (i : Nat) (t : Table) (ps : List Push),
       ∀ n ∈ names, Listed conn (subscribeLoop conn wp names i t ps).1 n := by
   induction names with
-  | nil => intro i t ps _ n hn; simp at hn
+  | nil => intro i t ps n hn; simp at hn
   | cons a r ih =>
-    intro i t ps h n hn
-    unfold subscribeLoop at h ⊢
+    intro i t ps n hn
+    unfold subscribeLoop
     split
     · rename_i ha
-      simp only [ha, if_true] at h
       simp at hn
       rcases hn with rfl | hn
       · exact subscribeLoop_mono conn conn wp n r _ _ _ (subFirst_listed_self conn n t ha)
-      · exact ih _ _ _ h n hn
-    · rename_i ha
-      simp only [ha] at h
-      split
-      · rename_i hp
-        simp [hp] at h
-      · rename_i hp
-        simp only [hp] at h
-        simp at hn
-        rcases hn with rfl | hn
-        · apply subscribeLoop_mono
-          exact ⟨{ name := n, pat := wp, subs := [conn] }, by simp, rfl, by simp⟩
-        · exact ih _ _ _ h n hn
+      · exact ih _ _ _ n hn
+    · simp at hn
+      rcases hn with rfl | hn
+      · apply subscribeLoop_mono
+        exact ⟨{ name := n, pat := wp, subs := [conn] }, by simp, rfl, by simp⟩
+      · exact ih _ _ _ n hn
+
+/-- the command was not refused: its table and confirmations are those of the loop -/
+theorem subscribe_accepted (conn : Nat) (wp : Bool) (names : List Bytes) (t : Table)
+    (h : (subscribe conn wp names t).2.2 = false) :
+    (subscribe conn wp names t).1 = (subscribeLoop conn wp names 0 t []).1 ∧
+    (subscribe conn wp names t).2.1 = (subscribeLoop conn wp names 0 t []).2 := by
+  unfold subscribe at h ⊢
+  split
+  · rename_i hr
+    simp [hr] at h
+  · exact ⟨rfl, rfl⟩
+
+/-- PSUBSCRIBE is refused exactly when one of its arguments does not compile; SUBSCRIBE never is -/
+theorem subscribe_refused_iff (conn : Nat) (wp : Bool) (names : List Bytes) (t : Table) :
+    (subscribe conn wp names t).2.2 = (wp && names.any fun n => !compiles n) := by
+  unfold subscribe
+  split
+  · rename_i hr; simp [hr]
+  · rename_i hr; simp only [Bool.not_eq_true] at hr; simp [hr]
+
+/-- a refused PSUBSCRIBE subscribes nothing and confirms nothing -/
+theorem subscribe_refused_nochange (conn : Nat) (wp : Bool) (names : List Bytes) (t : Table)
+    (h : (subscribe conn wp names t).2.2 = true) :
+    (subscribe conn wp names t).1 = t ∧ (subscribe conn wp names t).2.1 = [] := by
+  unfold subscribe at h ⊢
+  split
+  · exact ⟨rfl, rfl⟩
+  · rename_i hr
+    simp [hr] at h
 
 /-- name and kind of every entry -/
 def kinds (t : Table) : List (Bytes × Bool) := t.map fun c => (c.name, c.pat)
@@ -136,15 +146,13 @@ theorem subscribeLoop_kind (conn : Nat) (wp : Bool) (all : List Bytes) (names : 
     split
     · apply ih
       rw [subFirst_kinds]; exact h
-    · split
-      · exact h
-      · apply ih
-        intro x hx hxa
-        unfold kinds at hx
-        simp only [List.map_append, List.map_cons, List.map_nil, List.mem_append, List.mem_singleton] at hx
-        rcases hx with hx | rfl
-        · exact h x hx hxa
-        · rfl
+    · apply ih
+      intro x hx hxa
+      unfold kinds at hx
+      simp only [List.map_append, List.map_cons, List.map_nil, List.mem_append, List.mem_singleton] at hx
+      rcases hx with hx | rfl
+      · exact h x hx hxa
+      · rfl
 
 theorem unsubWhere_mem (conn : Nat) (sel : Chan → Bool) (t : Table) :
     ∀ c' ∈ (unsubWhere conn sel t).1, ∃ c ∈ t, c'.name = c.name ∧ c'.pat = c.pat ∧
@@ -200,7 +208,7 @@ theorem unsubGlobs_keeps_absent (conn s : Nat) (P : Chan → Prop) (ps : List By
     intro t acc h
     unfold unsubGlobs
     split
-    · exact h
+    · exact ih _ _ h
     · exact ih _ _ (unsubWhere_keeps_absent conn s _ P t hP h)
 
 /-- UNSUBSCRIBE / PUNSUBSCRIBE: afterwards the connection is in no entry called like one of the arguments -/
